@@ -72,8 +72,10 @@ func note(o outcome) string {
 
 ''' % P)
     s.append('''
-// flatten concatenates the matched bytes of action-less structure; action
-// results ([]any records starting with a tag string, strings) are kept whole.
+// flatten normalises a value so that regrouping of action-less structure is
+// invisible: matched bytes are concatenated in order; action results (records:
+// []any starting with a tag string) stay records whose label arguments are
+// themselves normalised; other action results (strings) are kept whole.
 func flatten(v any, out *[]any) {
 	switch x := v.(type) {
 	case nil:
@@ -82,9 +84,17 @@ func flatten(v any, out *[]any) {
 			*out = append(*out, b)
 		}
 	case []any:
-		if len(x) > 0 {
+		if len(x) >= 5 {
 			if _, ok := x[0].(string); ok {
-				*out = append(*out, x)
+				rec := append([]any{}, x[:5]...)
+				var args []any
+				for _, e := range x[5:] {
+					var one []any
+					flatten(e, &one)
+					args = append(args, one)
+				}
+				rec = append(rec, args)
+				*out = append(*out, rec)
 				return
 			}
 		}
@@ -94,6 +104,14 @@ func flatten(v any, out *[]any) {
 	default:
 		*out = append(*out, x)
 	}
+}
+
+func flatTrace(tr []any) []any {
+	var out []any
+	for _, r := range tr {
+		flatten(r, &out)
+	}
+	return out
 }
 ''')
     ents = ", ".join(gspec.go_quote(e) for e in entries)
@@ -143,7 +161,7 @@ func Harness_C09(n int) {
 		symAssert(a.panicked == b.panicked, "C09: one parser panicked")
 		symAssert((a.v == nil) == (b.v == nil), "C09: acceptance differs under -optimize-grammar")
 		symAssert(a.hasErr == b.hasErr, "C09: error presence differs")
-		symAssert(symEqual(a.tr, b.tr), "C09: actions ran at different points or saw different text/pos/labels")
+		symAssert(symEqual(flatTrace(a.tr), flatTrace(b.tr)), "C09: actions ran at different points or saw different text/pos/labels")
 		var fa, fb []any
 		flatten(a.v, &fa)
 		flatten(b.v, &fb)
